@@ -142,6 +142,11 @@ func runC15(c *Ctx) {
 					for _, a := range ci.Common().Args {
 						if a == ssa.Value(prm) {
 							uses = true
+						} else if _, isP := a.(*ssa.Parameter); isP {
+							// the parameter of a helper the codec hands it to
+							if okP, _ := allOrigins(a, oIsValue(prm)); okP {
+								uses = true
+							}
 						}
 					}
 					if ci.Common().IsInvoke() && ci.Common().Value == ssa.Value(prm) {
